@@ -45,6 +45,9 @@ func check(ctx *pbt.Ctx, c libexec.Prog) error {
 	if out.Panic != "" {
 		return fmt.Errorf("library panicked: %s", out.Panic)
 	}
+	if out.Damage != "" {
+		return fmt.Errorf("%s; unlock=%x lock=%x flags=%#x", out.Damage, c.Unlock, c.Lock, c.Flags)
+	}
 	libOK := out.Err == nil
 	ctx.Label("level=" + c.Level)
 	if flags.Has(interp.FlagAfterGenesis) {
